@@ -1,8 +1,16 @@
-HOOK_COMMITS = ["d538c87"]
+HOOK_COMMITS = ["d538c87", "3eb2de4", "61cb04f"]
 ENGINES = [
-    {"name": "lean", "path": "lean/", "kind_free_text": "Lean 4 library Tcell (models, specs, lemmas, property theorems) + line-protocol driver executable",
-     "serves_properties": ["C08"]},
-    {"name": "harness", "path": "harness/", "kind_free_text": "Go module built against /repo with -tags verif: cmd/extract (translator → lean/Tcell/Gen, gen/), cmd/drive (correspondence + oracle)",
-     "serves_properties": ["C08"]},
+    {"name": "lean", "path": "lean/", "kind_free_text": "Lean 4 library Tcell (Base, Model = executable models of the Go code, Spec = independent references incl. the ECMA-48 emulator and the terminfo(5) evaluator, Lemmas, Props = property theorems, Gen = regenerated from /repo on every run) + core-only line-protocol driver executable (lean/Driver)",
+     "serves_properties": ['C01', 'C02', 'C03', 'C04', 'C05', 'C06', 'C07', 'C08', 'C09', 'C10', 'C11', 'C12', 'C13', 'C14', 'C15', 'C16', 'C17', 'C18', 'C19', 'C20']},
+    {"name": "harness", "path": "harness/", "kind_free_text": "Go module built against $VERIF_REPO with -tags verif: cmd/extract (translator: terminfo database, key/colour tables, rune widths, lock facts -> lean/Tcell/Gen, gen/), cmd/drive + engines/ (case generators, execution of the real code, oracles written from the property texts), h/ (PRNG, reference access to the Lean driver)",
+     "serves_properties": ['C01', 'C02', 'C03', 'C04', 'C05', 'C06', 'C07', 'C08', 'C09', 'C10', 'C11', 'C12', 'C13', 'C14', 'C15', 'C16', 'C17', 'C18', 'C19', 'C20']},
+    {"name": "race", "path": "harness/race/", "kind_free_text": "binary built with -race that exercises pairs of Screen methods chosen from the regenerated lock facts under input/resize traffic",
+     "serves_properties": ["C10"]},
+    {"name": "sched", "path": "harness/sched/", "kind_free_text": "binary that runs the real terminfo screen on an in-memory tty under a seeded serialising schedule controller installed through the verif schedule points; logs point traces replayed by the Lean pipeline model; oracles for delivery order, back-pressure, shutdown deadlines, inertness after Fini",
+     "serves_properties": ["C05", "C06"]},
+    {"name": "wasm", "path": "harness/wasm/", "kind_free_text": "GOOS=js GOARCH=wasm build of the package + harness run under Node with a recording stand-in for webfiles/tcell.js",
+     "serves_properties": ["C19"]},
+    {"name": "check", "path": "check", "kind_free_text": "single entry point: rebuild + regenerate + lake build + axiom audit + correspondence + oracles + verdict + evidence; lib/props/Cxx.py holds the per-property configuration",
+     "serves_properties": ['C01', 'C02', 'C03', 'C04', 'C05', 'C06', 'C07', 'C08', 'C09', 'C10', 'C11', 'C12', 'C13', 'C14', 'C15', 'C16', 'C17', 'C18', 'C19', 'C20']},
 ]
 NOT_APPLICABLE = {}
